@@ -278,3 +278,51 @@ def same_tensor_goals(c, name, got: SymTensor, exp: SymTensor, dtype=True):
     if ge.sort() != ee.sort():
         ge, ee = sym.as_real(ge) if not z3.is_bool(ge) else ge, sym.as_real(ee) if not z3.is_bool(ee) else ee
     c.prove(f"{name}/value", z3.Implies(inb, ge == ee))
+
+
+def repr_invariant_goals(c, name, op, _depth=0, _path="result"):
+    """representation invariants of an operator-valued result (walks the operator tree):
+    a TriangularLinearOperator node flagged upper (resp. lower) has a matrix that IS upper (resp. lower) triangular —
+    every solve through that node substitutes with the triangle the flag names, so a wrong flag is a wrong solve."""
+    from linear_operator.operators import LinearOperator, TriangularLinearOperator
+
+    if _depth > 6 or not isinstance(op, LinearOperator):
+        return
+    if isinstance(op, TriangularLinearOperator):
+        try:
+            Dn = D(op._tensor) if isinstance(op._tensor, LinearOperator) else op._tensor
+        except Exception:  # noqa
+            Dn = None
+        if Dn is not None and Dn.elem_fn() is not None:
+            idx = tuple(z3.Int(c.fresh_name(f"t{j}!tri")) for j in range(len(Dn.shape)))
+            i, j = idx[-2], idx[-1]
+            wrong = (i > j) if op.upper else (j > i)
+            c.prove(f"{name}/repr-invariant/{_path}:{'upper' if op.upper else 'lower'}-triangular", z3.Implies(z3.And(Dn.in_bounds(idx), wrong), sym.as_real(Dn.at(*idx)) == 0))
+    for k, a in enumerate(tuple(op._args) + tuple(v for v in op._kwargs.values() if isinstance(v, LinearOperator))):
+        if isinstance(a, LinearOperator):
+            repr_invariant_goals(c, name, a, _depth + 1, f"{_path}.{type(op).__name__}[{k}]")
+
+
+def install_repr_invariants(op, _depth=0):
+    """precondition side of repr_invariant_goals: the tensors the CALLER wrapped in TriangularLinearOperator(upper=u) are
+    triangular with that orientation.  Encoded in the term (not as a side axiom) so that it holds under summation binders."""
+    from linear_operator.operators import LinearOperator, TriangularLinearOperator
+
+    if _depth > 6 or not isinstance(op, LinearOperator):
+        return
+    if isinstance(op, TriangularLinearOperator):
+        t = op._tensor
+        while isinstance(t, LinearOperator) and len(t._args) == 1 and type(t).__name__ == "DenseLinearOperator":
+            t = t._args[0]
+        st = getattr(t, "storage", None)
+        if st is not None and not getattr(st, "_tri_inv", False):
+            old, upper = st.elem, bool(op.upper)
+
+            def elem(idx, old=old, upper=upper):
+                r, cc = O.ix(idx[-2]), O.ix(idx[-1])
+                return z3.If((cc < r) if upper else (cc > r), z3.RealVal(0), old(idx))
+            st.elem = elem
+            st._tri_inv = True
+    for a in op._args:
+        if isinstance(a, LinearOperator):
+            install_repr_invariants(a, _depth + 1)
